@@ -43,7 +43,7 @@ ASSUMPTIONS = [
     "selection by explicit engine name and Parallel engines are out of the statement's scope and are only counted",
 ]
 
-N_CASES = {"quick": 720, "thorough": 10000}
+N_CASES = {"quick": 720, "thorough": 30000}
 REQS_PER_CASE = 12
 
 
